@@ -166,6 +166,22 @@ def build(defs, runs, positions):
     return beh, cases, nontrivial
 
 
+def iso_cases(defs, cases):
+    """exact mode: the linear part is (1 + ppm(t) * 1e-6) times a proper rotation (obligation `iso` of spec/Helmert.tla)"""
+    n = 0
+    for d in defs:
+        if not d.get("iso"):
+            continue
+        for e, ppm in sorted(d["isoppm"]):
+            m = 1.0 + ppm * 1e-6
+            for origin in ([3513638.0, 778956.0, 5248216.0, float(e)], [-4052051.0, 4212836.0, -2545106.0, float(e)]):
+                for dr in ("F", "I"):
+                    cases.append({"id": len(cases), "k": "iso", "tag": "similarity", "def": d["def"], "dir": dr, "origin": origin, "L": 1.0e6,
+                                  "scale": m if dr == "F" else 1.0 / m, "tol": 1e-12})
+                    n += 1
+    return n
+
+
 def run_rel(tag, cases, timeout=1700):
     inp = os.path.join(vlib.WORK, "beh", tag + ".rel.ndjson")
     outp = os.path.join(vlib.WORK, "beh", tag + ".rel.out.ndjson")
@@ -198,6 +214,10 @@ def run(tier, seed):
     while len(positions) < 4:
         positions.append([1, 2, 3])
     beh, cases, nontrivial = build(defs, runs, positions)
+    niso = iso_cases(defs, cases)
+    if niso == 0:
+        raise vlib.ToolError("vacuous: no exact-mode core with rotations")
+    nontrivial += niso
     summary, mism = scriptlib.replay_scripts(PROP, beh)
     rsum, rfails = run_rel(PROP, cases)
     res.behaviours_replayed = (summary["behaviours"] - len(mism)) + (rsum["cases"] - rsum["mismatching"])
@@ -218,7 +238,7 @@ def run(tier, seed):
                 "(1e-9 m + 8 ulp); (b) definitions of one class against each other: alias spellings bit for bit, t_obs vs per-tuple epochs, "
                 "dynamic definition on a mixed-epoch set vs the static definition with P(t) per tuple, position_vector r vs coordinate_frame -r, "
                 "forward of one convention vs inverse of the other in exact mode (bit for bit where everything is integer, 1e-9 m + 8 ulp otherwise); "
-                "(c) the assembled T, DT, R, DR, S, DS through params(). Non-trivial = coordinate-set runs whose expected result differs "
+                "(c) the assembled T, DT, R, DR, S, DS through params(); (d) exact mode: a similarity of the scale the specification derives for the tuple's epoch. Non-trivial = coordinate-set runs whose expected result differs "
                 "from the input + class pairs of textually different definitions + definitions that must be refused.")
     ex = [b for b in beh if b.get("kind") == "exact" and b["calls"][1]["data"] != b["calls"][1]["expect"]["data"] and len(b["calls"][1]["data"]) > 2]
     res.samples = [{k: b[k] for k in ("kind", "calls")} for b in ex[:: max(1, len(ex) // 2)][:2]]
@@ -227,7 +247,8 @@ def run(tier, seed):
         if cs:
             res.samples.append(cs[len(cs) // 2])
     res.assumptions = [
-        "not claimed, not compared: that R is a proper rotation in exact mode, scaling of distances, the second-order error of the small-angle inverse (only the fourth element is compared there), Molodensky",
+        "exact mode: the images of an orthogonal frame of 1000 km arms are orthogonal, of equal length (1 + ppm(t) 1e-6) L and right-handed to 1e-12 relative (the trigonometry itself is not computed by the specification)",
+        "not claimed, not compared: the second-order error of the small-angle inverse (only the fourth element is compared there), Molodensky",
         "a dynamic definition without t_epoch: the documentation does not say it must be refused; only 'no panic' is required",
         "both spellings of one parameter group in one definition (x=.. together with translation=..) are not generated: precedence is undocumented",
         "unknown convention names are not generated; a convention given without rotations must be accepted and be inert (position_vector only)",
